@@ -52,6 +52,25 @@ prop('C18', 'proof',
      'on PolyglotBook::hash after every op', 'provenance of Random64 (Spec/Random64.lean); ' + TIE,
      'Lean 4 theorems (table equality by decide, key equality) + differential correspondence', '§6 C18')
 
+prop('C11', 'proof',
+     'C11_slider proved in Lean for every square and ALL 2^64 occupancies: 128 per-square kernel-checked obligations (first-writer-wins table of the '
+     'model, built with the magics/index bits re-extracted from the build, equals the ray walk on every subset of the mask) lifted by inductive lemmas '
+     '(subset enumeration soundness, the walk ignores a ray\'s last square); leaper and LINES/FULL_LINES tables by exhaustive decide; pawn attacks '
+     'proved per pawn (full statement kept as C11_pawn_Statement). Correspondence is EXHAUSTIVE over all table slots reachable through slider_attack<>.',
+     'Lean kernel incl. decide +kernel evaluation (no native_decide); model of the C++ init algorithm is hand-written and compared exhaustively with the '
+     'C++ tables on every run; ' + TIE, 'Lean 4 proof (kernel-evaluated finite obligations + induction) with exhaustive table correspondence', '§6 C11')
+prop('C19', 'proof',
+     'Lean theorems for every byte string / weight vector / residue: loaded book = decoded complete 16-byte records in order (C19_load), best = first '
+     'maximal weight (C19_best), random policy picks move i iff the residue lies in its weight interval, never weight 0 (C19_random*), castling decode '
+     '(C19_decode); correspondence on loaded maps and both policies with the mt19937 residue replayed',
+     'iostream contract of the read loop; uniformity of dist(gen) % total up to modulo bias; ' + TIE,
+     'Lean 4 theorems by induction over byte/entry lists + differential correspondence with replayed PRNG residues', '§6 C19')
+prop('C20', 'proof',
+     'Lean theorems C20_bounds / C20_monotone for all integer clock states, parametric in the floating-point steps whose IEEE-754 facts (monotone truncated '
+     'scaling, trunc(0.7x) <= 7x/10) are explicit hypotheses; the model instantiated with IEEE doubles over the re-extracted importance() values is compared '
+     'with calculateTime on a boundary grid + random points, and the property is evaluated directly on the C++ outputs',
+     'three IEEE-754 facts as hypotheses (not axioms); ' + TIE, 'Lean 4 theorems parametric in float operations + exact differential on integer outputs', '§6 C20')
+
 PENDING = {
     'C05': 'search trace acceptor not built yet (in progress, DESIGN §6 C05)',
     'C06': 'handshake model and schedule hooks not built yet (in progress, DESIGN §6 C06)',
